@@ -128,6 +128,7 @@ def events(calls, status, ret):
         ev.append({"e": "end", "status": "never-entered:" + status, "result_ok": False})
         return ev
     ev.append({"e": "enter"})
+    socktype = {}
     for (name, rest, r) in calls[a + 1:z]:
         r = r or "?"
         ok = not r.startswith("-1")
@@ -137,9 +138,13 @@ def events(calls, status, ret):
         elif name in ("openat", "open", "creat"):
             ev.append({"e": "open", "ok": ok, "fd": fd})
         elif name == "socket":
-            ev.append({"e": "socket", "ok": ok, "fd": fd, "nonblock": "SOCK_NONBLOCK" in rest, "cloexec": "SOCK_CLOEXEC" in rest})
+            ev.append({"e": "socket", "ok": ok, "fd": fd, "nonblock": "SOCK_NONBLOCK" in rest, "stream": "SOCK_STREAM" in rest or "SOCK_SEQPACKET" in rest})
+            if ok:
+                socktype[fd] = "SOCK_STREAM" in rest or "SOCK_SEQPACKET" in rest
         elif name in ("sendto", "sendmsg", "send"):
-            ev.append({"e": "send", "dontwait": "MSG_DONTWAIT" in rest, "nosignal": "MSG_NOSIGNAL" in rest, "ok": ok})
+            sfd = rest.split(",", 1)[0].strip()
+            sfd = int(sfd) if sfd.isdigit() else -1
+            ev.append({"e": "send", "fd": sfd, "dontwait": "MSG_DONTWAIT" in rest, "nosignal": "MSG_NOSIGNAL" in rest, "stream": bool(socktype.get(sfd)), "ok": ok})
         elif name == "close":
             f = rest.split(")")[0].strip()
             ev.append({"e": "close", "fd": int(f) if f.isdigit() else -1})
@@ -265,7 +270,7 @@ def run(tier, seed, replay=None):
                 continue
             what = {"signal": "a signal was delivered to the caller during the call", "exec-count": "the real exec was not attempted exactly once",
                     "exec-args": "the real exec did not receive the caller's arguments", "descriptor-left-open": "a descriptor opened by the library was still open at the real exec",
-                    "blocking-or-inheritable-socket": "a socket was created without SOCK_NONBLOCK|SOCK_CLOEXEC", "send-may-block-or-signal": "a send without MSG_DONTWAIT|MSG_NOSIGNAL",
+                    "send-may-block": "a send that can block (neither a non-blocking socket nor MSG_DONTWAIT)", "send-may-raise-sigpipe": "a send on a connection-oriented socket without MSG_NOSIGNAL",
                     "no-exec-before-return": "the call returned without attempting the real exec", "did-not-complete": "the call did not complete normally (status %s, result %s)" % (status, ret)}.get(code, code)
             fault = (inj.split(":")[0] + ":" + inj.split("error=")[1].split(":")[0]) if inj and "|" not in inj else ("pair" if inj else "no-fault")
             rep.violation("%s:%s:%s" % (plans[k]["name"], code, fault), "scenario %s, %s: %s" % (plans[k]["name"], desc, what),
